@@ -86,7 +86,7 @@ func runC03(c *core.Ctx, r *core.Reporter) {
 
 func c03sym(c *core.Ctx, r *core.Reporter, m *readerModel) {
 	const rule = "C03.sym"
-	r.Rule(rule, "for every byte b: if the symbol printer emits b without |quoting| (its quoting table does not mark b) then the reader's tables accept b as the first byte of a token and as a later byte of a token; the copy of the quoting table in pkg/gi equals the printer's", 200)
+	r.Rule(rule, "for every byte b: if the symbol printer emits b without |quoting| (its quoting table does not mark b) then the reader's tables accept b as the first byte of a token and as a later byte of a token; copies of the quoting table in other packages are held to the same rule (obligations are contiguous byte ranges with one verdict)", 30)
 	fnObj := c.LookupFunc("", "Symbol.Readably")
 	if fnObj == nil {
 		r.Undecided(rule, "slip.(Symbol).Readably", "-", "anchor does not resolve")
